@@ -603,6 +603,15 @@ func (r *vSrvRig) picture() vSrvPic {
 // have written (kernel latency only: these are conservation laws of TCP, not of the code
 // under test).  When they do not settle within the patience the picture is recorded as it is.
 func (r *vSrvRig) settled(p vSrvPic) bool {
+	if os.Getenv("VERIF_SRV_NOSTATS") != "1" {
+		for _, h := range p.h {
+			if h == "stats" {
+				// statsThread is running but has not come back to its receive yet (it is runnable, not
+				// parked, on a loaded machine): a handler parked at the send is at rest only if that lasts
+				return false
+			}
+		}
+	}
 	for i, c := range r.conns {
 		if !r.proxy[i] {
 			continue
